@@ -91,6 +91,9 @@ func c01R1(c *Check, R *Roles) {
 	if init := P.SSA[pkgServer].Func("init"); init != nil {
 		allowed[init] = "server package initialiser: shared allow / deny(code) templates (returns checked by C01.R5)"
 	}
+	for fn := range serverDenyFns(P) {
+		allowed[fn] = "server deny template: code parameter, every call site checked by C01.R5 (non-OK constant)"
+	}
 	scan := func(fn *ssa.Function) {
 		for _, b := range fn.Blocks {
 			for _, ins := range b.Instrs {
@@ -864,7 +867,7 @@ func c01R5(c *Check, R *Roles) {
 				if call, _, isC := asCall(l); isC {
 					// deny(code, msg): closure call through the package variable
 					args := call.Common().Args
-					if len(args) >= 1 && isCodeType(args[0].Type()) {
+					if len(args) >= 1 && isCodeType(args[0].Type()) && isServerDenyCall(P, call) {
 						if n, isK := constInt(args[0]); isK && n != 0 {
 							why += fmt.Sprintf("deny(%d); ", n)
 							continue
